@@ -28,6 +28,7 @@ DeltaCorrs(d) ==
   \cup {[k |-> "swap", i |-> i] : i \in 1..(Len(d.ops) - 1)}
   \cup {[k |-> "lit_edit", i |-> i, j |-> j] : i \in {x \in 1..Len(d.ops) : d.ops[x].t = "L"}, j \in {1}}
   \cup {[k |-> "ssize", v |-> v] : v \in {-1, 1}}
+  \cup {[k |-> "ssize_set", v |-> v] : v \in {0, 1}}                 \* declared source size far below what the ops produce
   \cup {[k |-> "bsize", v |-> v] : v \in {-1, 1, 9}}
   \cup {[k |-> "blocksize", v |-> v] : v \in {0, 1000, 4096}}
   \cup {[k |-> "csum"]}
@@ -50,6 +51,7 @@ ApplyD(d, c) ==
     [] c.k = "swap"     -> [d EXCEPT !.ops = SwapAt(@, c.i)]
     [] c.k = "lit_edit" -> [d EXCEPT !.ops[c.i].data[c.j] = Other(@)]
     [] c.k = "ssize"    -> [d EXCEPT !.ssize = NatOr0(@ + c.v)]
+    [] c.k = "ssize_set" -> [d EXCEPT !.ssize = c.v]
     [] c.k = "bsize"    -> [d EXCEPT !.bsize = NatOr0(@ + c.v)]
     [] c.k = "csum"     -> [d EXCEPT !.csum = Append(@, CHOOSE t \in Sym : TRUE)]
     [] OTHER -> d
